@@ -26,6 +26,7 @@ UNITS = [
     ensures
         /*@reset_keeps_dedup_memory*/ final(self).indexed == old(self).indexed,
         /*@reset_clears_counter*/ final(self).count == 0,
+        /*@reset_starts_an_empty_index_file*/ final(self).file.packs@.len() == 0 && final(self).file.packs_to_delete@.len() == 0,
 """),
     Unit(name="add_with", file=IX, anchor="pub fn add_with(&mut self, pack: IndexPack, delete: bool) -> RusticResult<()>", within="impl<BE: DecryptWriteBackend> Indexer<BE> {", ret_name="r", **W,
          functions=["index::indexer::Indexer::add_with"],
@@ -38,8 +39,10 @@ UNITS = [
          ],
          contract="""
     requires
-        old(self).count + pack.blobs@.len() <= usize::MAX,
+        old(self).count + pack.blobs@.len() <= usize::MAX, old(self).file.packs@.len() + old(self).file.packs_to_delete@.len() < usize::MAX,
     ensures
+        // the pack is listed in the open index file, in the section the flag says, or that file was written out with it
+        /*@added_pack_is_listed_or_saved*/ r is Ok ==> listed_or_saved(*old(self), *final(self), pack, delete),
         /*@add_with_registers_typed_ids*/ old(self).indexed matches Some(s0) ==>
             (final(self).indexed matches Some(s1) && s1.s@ == s0.s@.union(typed_ids(pack.blobs@, pack.blobs@.len() as int))),
         /*@add_with_unindexed_stays*/ old(self).indexed is None ==> final(self).indexed is None,
@@ -62,6 +65,43 @@ UNITS = [
          contract="""
     ensures
         /*@has_is_typed_membership*/ r == (self.indexed matches Some(s) && s.s@.contains((tpe, *id))),
+"""),
+]
+
+IFP = "crates/core/src/repofile/indexfile.rs"
+R_ATTRS = Rw("", "", count=None, kind="attrs", optional=True, why="derive/serde helper attributes removed")
+UNITS += [
+    Unit(name="IndexFile", file=IFP, kind="type", anchor="pub struct IndexFile {", rewrites=[R_ATTRS]),
+    Unit(name="indexfile_add", file=IFP, anchor="pub(crate) fn add(&mut self, p: IndexPack, delete: bool)", within="impl IndexFile {",
+         wrap_open="impl IndexFile {", wrap_close="}", functions=["repofile::indexfile::IndexFile::add"],
+         contract="""
+    ensures
+        /*@index_file_sections*/ delete ==> final(self).packs_to_delete@ == old(self).packs_to_delete@.push(p) && final(self).packs@ == old(self).packs@,
+        !delete ==> final(self).packs@ == old(self).packs@.push(p) && final(self).packs_to_delete@ == old(self).packs_to_delete@,
+"""),
+    Unit(name="indexer_save", file=IX, anchor="pub fn save(&self) -> RusticResult<()>", within="impl<BE: DecryptWriteBackend> Indexer<BE> {", ret_name="r", **W,
+         functions=["index::indexer::Indexer::save"], rewrites=[R_DISCARD],
+         contract="""
+    requires self.file.packs@.len() + self.file.packs_to_delete@.len() <= usize::MAX,
+    ensures /*@save_writes_a_nonempty_index_file*/ r is Ok && self.file.packs@.len() + self.file.packs_to_delete@.len() > 0 ==> INDEX_SAVED(self.file.packs@, self.file.packs_to_delete@),
+"""),
+    Unit(name="indexer_finalize", file=IX, anchor="pub fn finalize(&self) -> RusticResult<()>", within="impl<BE: DecryptWriteBackend> Indexer<BE> {", ret_name="r", **W,
+         functions=["index::indexer::Indexer::finalize"],
+         contract="""
+    requires self.file.packs@.len() + self.file.packs_to_delete@.len() <= usize::MAX,
+    ensures /*@finalize_writes_what_is_left*/ r is Ok && self.file.packs@.len() + self.file.packs_to_delete@.len() > 0 ==> INDEX_SAVED(self.file.packs@, self.file.packs_to_delete@),
+"""),
+    Unit(name="indexer_add", file=IX, anchor="pub fn add(&mut self, pack: IndexPack) -> RusticResult<()>", within="impl<BE: DecryptWriteBackend> Indexer<BE> {", ret_name="r", **W,
+         functions=["index::indexer::Indexer::add"],
+         contract="""
+    requires old(self).count + pack.blobs@.len() <= usize::MAX, old(self).file.packs@.len() + old(self).file.packs_to_delete@.len() < usize::MAX,
+    ensures /*@add_goes_to_the_live_section*/ r is Ok ==> listed_or_saved(*old(self), *final(self), pack, false),
+"""),
+    Unit(name="indexer_add_remove", file=IX, anchor="pub fn add_remove(&mut self, pack: IndexPack) -> RusticResult<()>", within="impl<BE: DecryptWriteBackend> Indexer<BE> {", ret_name="r", **W,
+         functions=["index::indexer::Indexer::add_remove"],
+         contract="""
+    requires old(self).count + pack.blobs@.len() <= usize::MAX, old(self).file.packs@.len() + old(self).file.packs_to_delete@.len() < usize::MAX,
+    ensures /*@add_remove_goes_to_the_marked_section*/ r is Ok ==> listed_or_saved(*old(self), *final(self), pack, true),
 """),
 ]
 
